@@ -186,6 +186,24 @@ def run_case(case):
                 bad("%s raises %s on a permuted batch" % (mm, type(ex).__name__), "permutation", "%s %s" % (str(ex)[:200], desc0))
                 continue
             compare(mm, idx, got, "permutation")
+    # the caller overwrites the array a method RETURNED (in place, as a following pipeline step with copy=False would): the next
+    # call on the same batch must return the values again
+    for mm in methods:
+        try:
+            r1 = getattr(est, mm)(P) if kind != "recip" else est.transform(P, yP)[1]
+            tgt = r1.values if hasattr(r1, "values") and hasattr(r1, "columns") else r1
+            if isinstance(tgt, numpy.ndarray) and tgt.dtype.kind in "fiu" and tgt.flags.writeable:
+                tgt[...] = 77
+            elif hasattr(tgt, "data") and hasattr(tgt, "toarray") and tgt.data.size:
+                tgt.data[...] = 77
+            else:
+                continue
+            cnt += 1
+            again = _call(est, mm, P, kind, yP)
+        except Exception:
+            continue
+        if not _eq_exact(again, full[mm]):
+            bad("%s: repeated calls disagree" % mm, "after the caller overwrote the returned array", desc0)
     # another object of the same configuration constructed and fitted on other data in between: the first model's outputs stay
     # bitwise the same (default estimators, module-level caches and class attributes are not part of "the model")
     try:
